@@ -1,5 +1,6 @@
 import ServlinVerif.Props.C03
 import ServlinVerif.Props.C04Pipeline
+import ServlinVerif.Props.CodeTables
 open Servlin.C03
 #print axioms ops_eq
 #print axioms C03_classify_closed_form
@@ -15,3 +16,4 @@ open Servlin.C04P
 #print axioms C03_boundary
 #print axioms classify_plain
 #print axioms classify_plain_length
+#print axioms Servlin.CodeTables.contentType_matches
